@@ -1079,6 +1079,7 @@ func TestVerif(t *testing.T) {
 	}
 	dmarcGroup(t, r)
 	remoteGroup(t, r)
+	remotePipelineGroup(t, r)
 	r.Set("exhaustive", map[string]any{"completion_orders": "all k! rank orders of the k<=4 checks of every scenario, on both body paths"})
 }
 
